@@ -4,16 +4,19 @@ H = 'yatiml/helpers.py::Node.'
 
 PROPERTY = {
     'level': 'other',
-    'explanation': 'two parts.  PROVED (pyvc): unders_to_dashes_in_keys / '
-    'dashes_to_unders_in_keys rewrite exactly the key texts (every pair, '
-    'values and everything else untouched), for mappings of any size.  '
-    'BOUNDED (labelled bounded, not counted as proved): the four structural '
-    'transforms and their inverse laws are compared, on an exhaustively '
-    'enumerated family of small nodes, with an oracle over ordered '
-    'dictionaries written from the documentation; their loops rebuild '
-    'nested nodes through several aliases and were not brought under '
-    'contract.  Four defects found this way are repaired in /repo (D13, '
-    'D14, D18, D19).',
+    'explanation': 'two parts.  PROVED (pyvc), for mappings of any size: '
+    'unders_to_dashes_in_keys / dashes_to_unders_in_keys rewrite exactly the '
+    'key texts (every pair, values and everything else untouched); '
+    'map_attribute_to_index and index_attribute_to_map compute exactly the '
+    'documented mapping (m2i_pairs / i2m_pairs: same keys in the same '
+    'order, each value extended by / stripped of the key attribute, short '
+    'form expanded / collapsed), change nothing else of the node, and do '
+    'nothing at all when not applicable.  BOUNDED (labelled bounded, not '
+    'counted as proved): seq_attribute_to_map, map_attribute_to_seq and the '
+    'inverse laws of all four are compared, on an exhaustively enumerated '
+    'family of small nodes, with an oracle over ordered dictionaries written '
+    'from the documentation, together with A-TREE preservation.  Four '
+    'defects found this way are repaired in /repo (D13, D14, D18, D19).',
     'trusted': ['E-REPLACE: str.replace for single characters (inverse on '
                 'strings free of the target character) - bounded check',
                 'A-TREE, A-LIST'],
@@ -27,5 +30,7 @@ def check(run):
                           H + 'dashes_to_unders_in_keys',
                           H + 'has_attribute', H + 'get_attribute',
                           H + 'set_attribute', H + 'remove_attribute',
-                          H + 'is_mapping', H + 'is_sequence'])
+                          H + 'is_mapping', H + 'is_sequence',
+                          H + 'map_attribute_to_index',
+                          H + 'index_attribute_to_map'])
     transforms_bounded(run)
